@@ -244,6 +244,13 @@ theorem node_lookup_by_type_violated_witness :
     Nodes.staticNodeByType [⟨true, 0⟩, ⟨true, 0⟩] 0 = Nodes.staticNodeByType [⟨true, 0⟩, ⟨true, 0⟩] 1 :=
   Nodes.lookup_by_type_shares_a_node.1
 
+/-- the rank theorem speaks about positions among ALL shared cores, whatever their value types; a `TranslateIndexImpl` that does
+    not consume the target tuple gives the two `Y` inputs of (Shared<X>, Shared<Y>, Shared<Y>) one slot -/
+theorem translate_without_consuming_violated_witness :
+    Nodes.translateIndexNoConsume 1 0 [⟨true, 0⟩, ⟨true, 1⟩, ⟨true, 1⟩] (Nodes.sharedCores [⟨true, 0⟩, ⟨true, 1⟩, ⟨true, 1⟩]) =
+    Nodes.translateIndexNoConsume 2 0 [⟨true, 0⟩, ⟨true, 1⟩, ⟨true, 1⟩] (Nodes.sharedCores [⟨true, 0⟩, ⟨true, 1⟩, ⟨true, 1⟩]) :=
+  Nodes.no_consume_shares_a_slot.1
+
 /-- everything the trace validator accepts is a behaviour the theorems speak about -/
 theorem validator_sound {l : Label} {s' : State} (h : Reachable w s) (hn : next w s l = some s') : Reachable w s' :=
   .step h (next_sound hn)
